@@ -33,7 +33,9 @@ def eq_hook(ls, op):
         if real.auto and op[0] in ("probe", "probe_hit", "getters") and not db.index.valid:
             ls.fail("validity-after-read", real, "auto_index is on but the index is invalid after a read")
         if db.index.valid:
-            msg = indexeq.compare(db)
+            # storage is observed passively (file decoded independently / plain iteration), so the comparison itself does not
+            # move the file position or flush anything
+            msg = indexeq.compare(db, [gen.to_point(p) for p in ls.call(real, "storage-observation", real.observe)])
             ls.ctx.acc.ev(indexeq.n_per_compare())
             ls.ctx.acc.cls("index_compared_" + real.name)
             if msg:
